@@ -262,3 +262,18 @@ Definition diff_of_rows (sep : str) (rows : list jrow) (only_diff : bool) (al : 
 Definition get_tree_diff (sep : str) (t1 t2 : tree) (only_diff : bool) (al : list str)
   : res (option (list onode)) :=
   diff_of_rows sep (marked_rows sep al t1 t2) only_diff al.
+
+(* The second tree may use another separator; helper.py:336 first executes `other_tree.sep = tree.sep`,
+   so other_tree's table is exported with the FIRST tree's separator and other_tree's own separator
+   never reaches any path string (in particular separator characters inside names are left alone). *)
+Definition marked_rows_seps (sep sep_other : str) (al : list str) (t1 t2 : tree) : list jrow :=
+  let nn := map (fun _ => VNone) al in
+  let both := merge_outer nn (table sep al t1) (table sep_other al t2) in
+  let removed := map jpath (filter (fun r => is_left (jind r)) both) in
+  let added := map jpath (filter (fun r => is_right (jind r)) both) in
+  map (fun r => set_path r (add_suffix sep removed added (jpath r))) both.
+
+Definition get_tree_diff_seps (sep sep2 : str) (t1 t2 : tree) (only_diff : bool) (al : list str)
+  : res (option (list onode)) :=
+  let sep_other := sep in                     (* other_tree.sep = tree.sep; sep2 is overwritten *)
+  diff_of_rows sep (marked_rows_seps sep sep_other al t1 t2) only_diff al.
